@@ -32,6 +32,18 @@
 //! a plain product (no data-dependent choice points), so it is enumerated with nested loops + rayon rather
 //! than with the `choice` explorer. Bounds per tier are in `run` and in the evidence (`bounds`).
 //!
+//! Further layers (each closes a dimension the product above does not vary):
+//!  * stalled sources: every pacing position also with a 6-hour virtual delay (a shutdown that stops waiting
+//!    for the stream after a while feeds only a prefix);
+//!  * dataset shapes: datasets whose entries are not plain increasing trades - equal and decreasing exchange
+//!    timestamps, exact duplicates of the previous trade, `MarketStreamEvent::Reconnecting` entries (logged
+//!    through the engine's `on_disconnect` call) - "every event … exactly once and in dataset order" is about
+//!    the dataset as given, whatever its timestamps and entry kinds;
+//!  * per-member pacing (members of one batch not in lock-step), long datasets (every length up to a few
+//!    thousand, then the neighbourhood of every power of two / ten up to 2^16 (2^17 thorough); whole backtests
+//!    up to 16385 (131073) entries), many members (N up to 32 (64): `try_join_all` changes its polling
+//!    discipline above 30 futures).
+//!
 //! Because the sweep itself runs many backtests on 16 OS threads of one process, a defect that couples
 //! backtests through process-global state also shows up as interference BETWEEN sweep workers. Violations
 //! are therefore first collected as candidates; after the sweep every signature is confirmed by a serial
@@ -112,7 +124,7 @@ use serde::{Deserialize, Serialize};
 use serde_json::{Value, json};
 use smol_str::SmolStr;
 use std::{
-    collections::{BTreeMap, HashSet},
+    collections::{BTreeMap, HashMap},
     sync::{
         Arc, Mutex,
         atomic::{AtomicU64, Ordering},
@@ -134,9 +146,30 @@ const INSTRUMENTS: [(&str, &str, &str); 2] = [("btc_usdt", "BTCUSDT", "btc"), ("
 /// Prices by event position; positions 1 and 3 collide on purpose.
 const PRICES: [f64; 4] = [100.0, 110.0, 90.0, 110.0];
 
+/// A "stalled stream" delay (virtual ms): 6 hours. The statement lets a backtest shut its engine down only
+/// after the WHOLE dataset was fed, however slowly the source yields it, so every pacing position is also
+/// tried with this delay (virtual time: the paused clock jumps over it at no cost; not longer than this so
+/// that an implementation that wakes up periodically while it waits does not make the check slow).
+const STALL_MS: u64 = 6 * 3600 * 1000;
+
+/// Dataset event codes (the entries of `Case::instr`). 0/1 = a trade on instrument 0/1 stamped one hour
+/// after the latest timestamp so far (the only codes of the main sweep). The *dataset shape* layer also uses:
+/// 2/3 = trade stamped EQUAL to the previous trade, 4/5 = trade stamped one hour EARLIER than the previous
+/// trade (possibly before the first event of the dataset, i.e. before the start of the backtest's clock), 6/7 = an exact DUPLICATE of the previous
+/// trade (same id, time, instrument, price; the instrument bit is ignored), 8 = `MarketStreamEvent::Reconnecting`.
+/// The first trade of a dataset is always a plain one whatever its kind says.
+const CODE_RECONNECT: usize = 8;
+const CODES_ALL: [usize; 9] = [0, 1, 2, 3, 4, 5, 6, 7, 8];
+/// `MEv::instrument` of a logged `Reconnecting` event
+const RECONNECT_MARK: usize = 99;
+
+fn t_hour(h: i64) -> DateTime<Utc> {
+    DateTime::<Utc>::from_timestamp(1_700_000_000, 0).unwrap() + TimeDelta::hours(h)
+}
+
 fn t_event(i: usize) -> DateTime<Utc> {
-    // Dataset timestamps one hour apart, strictly increasing: the wall-clock deltas that
-    // `HistoricalClock` adds (micro- to milliseconds) can then never reorder two exchange timestamps.
+    // Dataset timestamps are whole hours: the wall-clock deltas that `HistoricalClock` adds (micro- to
+    // milliseconds) can then never move an exchange timestamp into another hour.
     DateTime::<Utc>::from_timestamp(1_700_000_000, 0).unwrap() + TimeDelta::hours(i as i64)
 }
 
@@ -289,7 +322,14 @@ impl AlgoStrategy for RecStrategy {
         let mut out = self.out.lock().unwrap();
         // export the engine-local record
         out.calls += 1;
-        out.market = state.global.market.clone();
+        // (long logs are copied incrementally: the log is append-only; the overlap is re-checked at its end)
+        let log = &state.global.market;
+        let have = out.market.len();
+        if have >= 64 && have <= log.len() && out.market[have - 1] == log[have - 1] && out.market[have / 2] == log[have / 2] {
+            out.market.extend_from_slice(&log[have..]);
+        } else {
+            out.market = log.clone();
+        }
         out.fills = state.global.fills.clone();
         out.account_events = state.global.account_events;
         out.positions = state
@@ -316,7 +356,8 @@ impl AlgoStrategy for RecStrategy {
         out.pnl_realised = state.instruments.0.values().map(|s| d(s.tear_sheet.pnl_returns.pnl_raw)).collect();
 
         // decide (function of the number of market events seen only)
-        let seen = state.global.market.len();
+        let seen = state.global.market.iter().filter(|e| e.instrument != RECONNECT_MARK).count();
+        let last_item = state.global.market.iter().rfind(|e| e.instrument != RECONNECT_MARK);
         let mut opens = Vec::new();
         if let Strat::Trade { buy, sell } = self.plan {
             let mk = |instrument: usize, side: Side, cid: String, price: Decimal| OrderRequestOpen {
@@ -339,7 +380,7 @@ impl AlgoStrategy for RecStrategy {
                 state.instruments.instrument_index(&InstrumentIndex(instrument)).data.price()
             };
             if seen == buy && out.bought.is_none() {
-                let instrument = state.global.market[seen - 1].instrument;
+                let instrument = last_item.map(|e| e.instrument).unwrap_or(0);
                 if let Some(price) = price_of(instrument) {
                     out.bought = Some(instrument);
                     out.orders_sent.push(format!("buy@{seen}"));
@@ -378,9 +419,13 @@ impl ClosePositionsStrategy for RecStrategy {
     }
 }
 
-impl<C, S, T, R> OnDisconnectStrategy<C, S, T, R> for RecStrategy {
+/// The engine calls this when it processes a `Reconnecting` event (market or account stream; the mock
+/// account stream never reconnects in these runs): log it in the engine-local record, in processing order.
+impl<C, T, R> OnDisconnectStrategy<C, St, T, R> for RecStrategy {
     type OnDisconnect = ();
-    fn on_disconnect(_: &mut Engine<C, S, T, Self, R>, _: ExchangeId) -> Self::OnDisconnect {}
+    fn on_disconnect(engine: &mut Engine<C, St, T, Self, R>, exchange: ExchangeId) -> Self::OnDisconnect {
+        engine.state.global.market.push(MEv { id: "reconnecting".into(), instrument: RECONNECT_MARK, price: format!("{exchange}") });
+    }
 }
 
 impl<C, S, T, R> OnTradingDisabled<C, S, T, R> for RecStrategy {
@@ -453,32 +498,59 @@ impl BacktestMarketData for Data {
 }
 
 fn dataset(instr: &[usize]) -> Vec<MEvent> {
-    instr
-        .iter()
-        .enumerate()
-        .map(|(i, inst)| {
-            MarketStreamEvent::Item(MarketEvent {
-                time_exchange: t_event(i),
-                time_received: t_event(i),
-                exchange: EXCHANGE,
-                instrument: InstrumentIndex(*inst),
-                kind: DataKind::Trade(PublicTrade {
-                    id: format!("e{}", i + 1),
-                    price: PRICES[i % PRICES.len()],
-                    amount: 1.0,
-                    side: if i % 2 == 0 { Side::Buy } else { Side::Sell },
-                }),
-            })
-        })
-        .collect()
+    let mut out: Vec<MEvent> = Vec::with_capacity(instr.len());
+    let mut latest_hour: i64 = -1;
+    // previous trade and its hour
+    let mut prev: Option<(MarketEvent<InstrumentIndex, DataKind>, i64)> = None;
+    for (i, code) in instr.iter().enumerate() {
+        if *code == CODE_RECONNECT {
+            out.push(MarketStreamEvent::Reconnecting(EXCHANGE));
+            continue;
+        }
+        let (kind, inst) = (code / 2, code % 2);
+        let event = match (kind, &prev) {
+            (3, Some((p, _))) => p.clone(),
+            _ => {
+                let hour = match (kind, &prev) {
+                    (1, Some((_, h))) => *h,
+                    (2, Some((_, h))) => *h - 1,
+                    _ => latest_hour + 1,
+                };
+                latest_hour = latest_hour.max(hour);
+                let event = MarketEvent {
+                    time_exchange: t_hour(hour),
+                    time_received: t_hour(hour),
+                    exchange: EXCHANGE,
+                    instrument: InstrumentIndex(inst),
+                    kind: DataKind::Trade(PublicTrade {
+                        id: format!("e{}", i + 1),
+                        price: PRICES[i % PRICES.len()],
+                        amount: 1.0,
+                        side: if i % 2 == 0 { Side::Buy } else { Side::Sell },
+                    }),
+                };
+                prev = Some((event.clone(), hour));
+                event
+            }
+        };
+        out.push(MarketStreamEvent::Item(event));
+    }
+    out
 }
 
+fn mev_of(e: &MEvent) -> MEv {
+    match e {
+        MarketStreamEvent::Reconnecting(exchange) => MEv { id: "reconnecting".into(), instrument: RECONNECT_MARK, price: format!("{exchange}") },
+        MarketStreamEvent::Item(ev) => match &ev.kind {
+            DataKind::Trade(t) => MEv { id: t.id.clone(), instrument: ev.instrument.index(), price: format!("{}", t.price) },
+            other => MEv { id: "?".into(), instrument: ev.instrument.index(), price: format!("{other:?}") },
+        },
+    }
+}
+
+/// What the engine-local log must be: the dataset itself, entry by entry.
 fn expected_log(instr: &[usize]) -> Vec<MEv> {
-    instr
-        .iter()
-        .enumerate()
-        .map(|(i, inst)| MEv { id: format!("e{}", i + 1), instrument: *inst, price: format!("{}", PRICES[i % PRICES.len()]) })
-        .collect()
+    dataset(instr).iter().map(mev_of).collect()
 }
 
 // ------------------------------------------------------------------------------------------------
@@ -673,18 +745,43 @@ fn source_kind(s: &Source) -> &'static str {
     }
 }
 
+/// `got` is `want` with some entries left out, all of which satisfy `class`.
+fn is_subsequence_missing_only(want: &[String], got: &[String], class: impl Fn(&String) -> bool) -> bool {
+    let mut gi = 0;
+    for w in want {
+        if gi < got.len() && *w == got[gi] {
+            gi += 1;
+        } else if !class(w) {
+            return false;
+        }
+    }
+    gi == got.len()
+}
+
 /// R1: the engine-local market log equals the dataset.
 fn rule_completeness(want: &[MEv], got: &[MEv], source: &Source, ctxs: &str, out: &mut Vec<Viol>) {
     if want == got {
         return;
     }
-    let ids = |v: &[MEv]| v.iter().map(|e| e.id.clone()).collect::<Vec<_>>();
-    let (w, g) = (ids(want), ids(got));
-    let gset: HashSet<&String> = g.iter().collect();
-    let cause = if g.len() != gset.len() {
+    // classification by (id, instrument) keys with multiplicities (a dataset may hold the same event twice)
+    let key = |e: &MEv| format!("{}@{}", e.id, e.instrument);
+    let count = |v: &[MEv]| {
+        let mut m: HashMap<String, usize> = HashMap::new();
+        for e in v {
+            *m.entry(key(e)).or_default() += 1;
+        }
+        m
+    };
+    let (w, g): (Vec<String>, Vec<String>) = (want.iter().map(key).collect(), got.iter().map(key).collect());
+    let (wc, gc) = (count(want), count(got));
+    let cause = if gc.iter().any(|(k, n)| wc.get(k).is_some_and(|m| n > m)) {
         "event-delivered-more-than-once"
-    } else if g.iter().any(|x| !w.contains(x)) {
+    } else if gc.keys().any(|k| !wc.contains_key(k)) {
         "foreign-event"
+    } else if g.len() < w.len() && is_subsequence_missing_only(&w, &g, |k| k.starts_with("reconnecting@")) {
+        "reconnecting-entry-skipped"
+    } else if g.len() < w.len() && is_subsequence_missing_only(&w, &g, |k| wc.get(k).is_some_and(|m| *m > 1)) {
+        "repeated-event-skipped"
     } else if g.len() < w.len() && w[..g.len()] == g[..] {
         "tail-not-delivered-before-shutdown"
     } else if g.len() < w.len() && w[w.len() - g.len()..] == g[..] {
@@ -698,7 +795,17 @@ fn rule_completeness(want: &[MEv], got: &[MEv], source: &Source, ctxs: &str, out
     };
     out.push((
         format!("C20/R1-completeness-order/{cause}/{}-source", source_kind(source)),
-        format!("{ctxs}: engine saw {:?}, dataset is {:?}", got, want),
+        {
+            let first = want.iter().zip(got.iter()).position(|(a, b)| a != b).unwrap_or(want.len().min(got.len()));
+            let from = first.saturating_sub(2);
+            format!(
+                "{ctxs}: engine saw {} entries, dataset has {}; first difference at index {first}; from index {from}: engine saw {:?}, dataset is {:?}",
+                got.len(),
+                want.len(),
+                &got[from.min(got.len())..got.len().min(from + 12)],
+                &want[from.min(want.len())..want.len().min(from + 12)]
+            )
+        },
     ));
 }
 
@@ -775,6 +882,34 @@ fn rule_isolation(prefix: &str, got: &MemberOutcome, reference: &MemberOutcome, 
     }
 }
 
+/// One batch judged by the rules that hold for EVERY schedule (R1 completeness/order, R3 the summary is its
+/// own engine's). Used where a batch contains same-instant races that only the task scheduler resolves - the
+/// burst source, where the initial account snapshot, the whole dataset and `Shutdown` all enter the feed at
+/// one virtual instant: which of snapshot and `Shutdown` comes first is then a property of tokio's run queue
+/// (observed: with 64 members some engines are shut down before they saw their snapshot, alone they see it),
+/// so final balances may legitimately differ from the run alone and R2 is not evaluated.
+fn check_batch_timing_free(instr: &[usize], source: &Source, members: &[Strat], stats: &Stats, distinct: &Distinct, out: &mut Vec<Viol>) {
+    let ctxs = format!("batch instr={} source={source:?} members={members:?}", instr_text(instr));
+    stats.executions.fetch_add(1, Ordering::Relaxed);
+    stats.batch_runs.fetch_add(1, Ordering::Relaxed);
+    let outcomes = match execute(instr, source, members, Mode::Batch) {
+        Ok(v) => v,
+        Err((kind, text)) => {
+            out.push((format!("C20/R1-completeness-order/backtest-failed/{kind}"), format!("{ctxs}: {text}")));
+            return;
+        }
+    };
+    let want = expected_log(instr);
+    for (i, o) in outcomes.iter().enumerate() {
+        stats.note(o);
+        distinct.add(&o.essence());
+        stats.oracle_evals.fetch_add(2, Ordering::Relaxed);
+        let c = format!("{ctxs} member={i}");
+        rule_completeness(&want, &o.record.market, source, &c, out);
+        rule_own_summary(i, o, &c, out);
+    }
+}
+
 /// Per-run statistics for non-vacuity.
 #[derive(Default)]
 struct Stats {
@@ -808,7 +943,7 @@ impl Stats {
 
 /// Reference run of one strategy alone (twice: reproducibility is part of R2). Returns the first outcome.
 fn reference(instr: &[usize], source: &Source, s: Strat, stats: &Stats, distinct: &Distinct, out: &mut Vec<Viol>) -> Option<MemberOutcome> {
-    let ctxs = format!("alone instr={instr:?} source={source:?} strategy={s:?}");
+    let ctxs = format!("alone instr={} source={source:?} strategy={s:?}", instr_text(instr));
     let mut runs = Vec::new();
     for _ in 0..2 {
         stats.executions.fetch_add(1, Ordering::Relaxed);
@@ -832,7 +967,7 @@ fn reference(instr: &[usize], source: &Source, s: Strat, stats: &Stats, distinct
 
 /// Evaluate one batch against the references.
 fn check_batch(instr: &[usize], source: &Source, members: &[Strat], refs: &BTreeMap<Strat, MemberOutcome>, stats: &Stats, distinct: &Distinct, out: &mut Vec<Viol>) {
-    let ctxs = format!("batch instr={instr:?} source={source:?} members={members:?}");
+    let ctxs = format!("batch instr={} source={source:?} members={members:?}", instr_text(instr));
     stats.executions.fetch_add(1, Ordering::Relaxed);
     stats.batch_runs.fetch_add(1, Ordering::Relaxed);
     let outcomes = match execute(instr, source, members, Mode::Batch) {
@@ -949,7 +1084,13 @@ fn check_case_serial(case: &Case, verbose: bool) -> Vec<Viol> {
             refs.insert(*s, r);
         }
     }
-    check_batch(&case.instr, &case.source, &case.members, &refs, &stats, &distinct, &mut out);
+    // the layers that judge a burst-source batch by the timing-free rules only (many members, long datasets)
+    let timing_free = case.source == Source::InMemory && (case.members.len() > 3 || (case.instr.len() > 16 && case.members.len() > 1));
+    if timing_free {
+        check_batch_timing_free(&case.instr, &case.source, &case.members, &stats, &distinct, &mut out);
+    } else {
+        check_batch(&case.instr, &case.source, &case.members, &refs, &stats, &distinct, &mut out);
+    }
     out
 }
 
@@ -1036,7 +1177,8 @@ fn mt_smoke(ctx: &Ctx) -> Value {
     let workers = 4usize;
     let n = 3usize;
     let strats = strategies(n);
-    let patterns: Vec<Vec<usize>> = vec![vec![0, 1, 0], vec![1, 1, 0]];
+    // (the last one: equal timestamps, then a `Reconnecting` entry)
+    let patterns: Vec<Vec<usize>> = vec![vec![0, 1, 0], vec![1, 1, 0], vec![0, 3, CODE_RECONNECT]];
     // real-time pacings (ms); the tail of the last one lets responses (latency 4 ms) land before Shutdown
     let sources = vec![Source::InMemory, Source::Paced(vec![0, 0, 0, 0]), Source::Paced(vec![1, 0, 1, 0]), Source::Paced(vec![6, 6, 6, 12])];
     // member triples: every strategy appears, neighbours differ; `stride` thins the list in the quick tier
@@ -1076,6 +1218,17 @@ fn mt_smoke(ctx: &Ctx) -> Value {
     })
 }
 
+/// Dataset of the long-dataset layer: instruments alternate; every 7th entry is a `Reconnecting` one (never
+/// the first or the last entry).
+fn long_instr(n: usize) -> Vec<usize> {
+    (0..n).map(|i| if i % 7 == 6 && i + 1 < n { CODE_RECONNECT } else { i % 2 }).collect()
+}
+
+/// Dataset description for messages (long ones abbreviated).
+fn instr_text(instr: &[usize]) -> String {
+    if instr.len() <= 16 { format!("{instr:?}") } else { format!("<{} entries: {:?}..>", instr.len(), &instr[..8]) }
+}
+
 /// Long datasets. The exhaustive sweep in `run` never exceeds 4 events, so defects that depend on the
 /// dataset *length* (chunking, batching, buffer boundaries) are out of its reach. This layer (a) pulls
 /// the real `MarketDataInMemory::stream` for EVERY dataset length 1..=L and compares the yielded events
@@ -1085,25 +1238,30 @@ fn long_datasets(ctx: &Ctx) -> Value {
     use rayon::prelude::*;
     let lmax = ctx.tier.pick(2600usize, 9000usize);
     let src = Source::InMemory;
-    let stream_violations: Vec<(usize, Vec<Viol>)> = (1..=lmax)
-        .into_par_iter()
-        .filter_map(|n| {
-            let instr: Vec<usize> = (0..n).map(|i| i % 2).collect();
+    // beyond `lmax`: the lengths around every power of two and of ten up to 2^17 (buffer / chunk / index-width
+    // boundaries); each of them is checked completely (every yielded event compared with the dataset)
+    let mut stream_lengths: Vec<usize> = (1..=lmax).collect();
+    let kmax = ctx.tier.pick(16u32, 17u32);
+    for k in 8..=kmax {
+        stream_lengths.extend([(1usize << k) - 1, 1 << k, (1 << k) + 1]);
+    }
+    for k in 3..=5u32 {
+        stream_lengths.extend([10usize.pow(k) - 1, 10usize.pow(k), 10usize.pow(k) + 1]);
+    }
+    // longest first (they dominate the cost: start them first)
+    stream_lengths.sort_by(|a, b| b.cmp(a));
+    stream_lengths.dedup();
+    let events_compared: usize = stream_lengths.iter().sum();
+    let stream_violations: Vec<(usize, Vec<Viol>)> = stream_lengths
+        .par_iter()
+        .filter_map(|&n| {
+            // every 7th event is followed by a `Reconnecting` entry when the position allows (code 8): the
+            // real stream must yield those too
+            let instr = long_instr(n);
             let data = MarketDataInMemory::new(Arc::new(dataset(&instr)));
             let got: Vec<MEv> = futures::executor::block_on(async {
                 match data.stream().await {
-                    Ok(s) => s
-                        .filter_map(|e| async move {
-                            match e {
-                                MarketStreamEvent::Item(ev) => match &ev.kind {
-                                    DataKind::Trade(t) => Some(MEv { id: t.id.clone(), instrument: ev.instrument.index(), price: format!("{}", t.price) }),
-                                    _ => None,
-                                },
-                                _ => None,
-                            }
-                        })
-                        .collect::<Vec<_>>()
-                        .await,
+                    Ok(s) => s.map(|e| mev_of(&e)).collect::<Vec<_>>().await,
                     Err(_) => vec![],
                 }
             });
@@ -1114,12 +1272,14 @@ fn long_datasets(ctx: &Ctx) -> Value {
             if out.is_empty() { None } else { Some((n, out)) }
         })
         .collect();
+    let mut stream_violations = stream_violations;
+    stream_violations.sort_by_key(|v| v.0);
     let mut first_bad_len = None;
     for (n, viols) in &stream_violations {
         if first_bad_len.is_none() {
             first_bad_len = Some(*n);
         }
-        let instr: Vec<usize> = (0..*n).map(|i| i % 2).collect();
+        let instr = long_instr(*n);
         for (sig, detail) in viols {
             // only the shortest failing length carries the (large) replay case
             if Some(*n) == first_bad_len {
@@ -1130,16 +1290,18 @@ fn long_datasets(ctx: &Ctx) -> Value {
         }
     }
     let lengths: Vec<usize> = if ctx.tier == crate::core::Tier::Thorough {
-        vec![255, 256, 257, 1023, 1024, 1025, 2047, 2048, 2049, 4096, 4097, 8193]
+        vec![255, 256, 257, 1023, 1024, 1025, 2047, 2048, 2049, 4096, 4097, 8193, 16385, 32769, 65535, 65536, 65537, 100001, 131073]
     } else {
-        vec![1023, 1024, 1025, 2049]
+        vec![16385, 4097, 2049, 1025, 1024, 1023]
     };
     let whole: Vec<(usize, Vec<Viol>)> = lengths
         .par_iter()
         .map(|&n| {
-            let instr: Vec<usize> = (0..n).map(|i| i % 2).collect();
+            let instr = long_instr(n);
             let mut out = Vec::new();
-            for strat in [Strat::Idle, Strat::Trade { buy: 1, sell: n }] {
+            // buys on the first trade, sells on the last one
+            let trades = instr.iter().filter(|c| **c != CODE_RECONNECT).count();
+            for strat in [Strat::Idle, Strat::Trade { buy: 1, sell: trades }] {
                 let ctxs = format!("alone, {n}-event in-memory dataset, strategy={strat:?}");
                 match execute(&instr, &src, &[strat], Mode::Alone) {
                     Ok(v) => rule_completeness(&expected_log(&instr), &v[0].record.market, &src, &ctxs, &mut out),
@@ -1150,14 +1312,37 @@ fn long_datasets(ctx: &Ctx) -> Value {
         })
         .collect();
     for (n, viols) in &whole {
-        let instr: Vec<usize> = (0..*n).map(|i| i % 2).collect();
+        let instr = long_instr(*n);
         for (sig, detail) in viols {
             ctx.violate(sig.clone(), format!("dataset length {n}: {detail}"), case_json(&instr, &src, &[Strat::Idle]));
         }
     }
+    // long datasets x concurrent members (a bounded buffer shared by a batch shows only when both are large):
+    // three members through run_backtests (burst source), rules R1 and R3
+    let batch_lengths: Vec<usize> = ctx.tier.pick(vec![4097, 1025, 257], vec![65537, 16385, 4097, 1025, 257]);
+    let batch_viols: Vec<(Viol, Value)> = batch_lengths
+        .par_iter()
+        .flat_map_iter(|&n| {
+            let instr = long_instr(n);
+            let trades = instr.iter().filter(|c| **c != CODE_RECONNECT).count();
+            let members = [Strat::Idle, Strat::Trade { buy: 1, sell: trades }, Strat::Trade { buy: 2, sell: 3 }];
+            let json = case_json(&instr, &src, &members);
+            let (stats, distinct) = (Stats::default(), Distinct::default());
+            let mut out = Vec::new();
+            check_batch_timing_free(&instr, &src, &members, &stats, &distinct, &mut out);
+            out.into_iter()
+                .map(move |(s, d)| ((format!("{s}/long-dataset"), format!("dataset length {n}: {}", d.chars().take(300).collect::<String>())), json.clone()))
+                .collect::<Vec<_>>()
+        })
+        .collect();
+    for ((sig, detail), case) in batch_viols {
+        ctx.violate(sig, detail, case);
+    }
     json!({
-        "in_memory_stream_lengths_checked": format!("every length 1..={lmax}"),
-        "in_memory_stream_events_compared": (lmax * (lmax + 1) / 2),
+        "batch_of_3_lengths": batch_lengths,
+        "in_memory_stream_lengths_checked": format!("every length 1..={lmax}, plus 2^k-1, 2^k, 2^k+1 (k=8..{kmax}) and 10^k-1, 10^k, 10^k+1 (k=3..5); datasets hold a Reconnecting entry after every 7th position"),
+        "in_memory_stream_lengths": stream_lengths.len(),
+        "in_memory_stream_events_compared": events_compared,
         "whole_backtest_lengths": lengths,
         "whole_backtests_run": lengths.len() * 2,
     })
@@ -1183,17 +1368,40 @@ fn check_hetero(instr: &[usize], delays: &[Vec<u64>], members: &[Strat], stats: 
         let c = format!("{ctxs} member={i}");
         rule_completeness(&want, &o.record.market, &source, &c, out);
         rule_own_summary(i, o, &c, out);
-        stats.executions.fetch_add(1, Ordering::Relaxed);
-        match execute(instr, &Source::Paced(delays[i].clone()), &[members[i]], Mode::Alone) {
-            Ok(mut alone) => {
-                stats.oracle_evals.fetch_add(3, Ordering::Relaxed);
-                let mut tmp = Vec::new();
-                rule_isolation("R2-isolation-concurrent", o, &alone.remove(0), &c, &mut tmp);
-                out.extend(tmp.into_iter().map(|(s, d)| (format!("{s}/members-paced-differently"), d)));
-            }
-            Err((kind, text)) => out.push((format!("C20/R1-completeness-order/backtest-failed/{kind}"), format!("{c} alone: {text}"))),
-        }
     }
+    // R2. The source hands pacing vector k to the k-th `stream()` call of the batch, and which member makes
+    // that call is the implementation's business (members started in another order are as good). So: some
+    // one-to-one assignment of the pacing vectors to the members must make EVERY member equal to itself alone
+    // under its assigned pacing. The identity assignment is tried first (the only one needed on the unchanged
+    // tree); if no assignment fits, the differences under the identity assignment are reported.
+    let n = members.len();
+    let mut cache: BTreeMap<(usize, usize), Result<MemberOutcome, (String, String)>> = BTreeMap::new();
+    let mut first: Option<Vec<Viol>> = None;
+    for perm in itertools::Itertools::permutations(0..n, n) {
+        let mut viols = Vec::new();
+        for (i, o) in outcomes.iter().enumerate() {
+            let k = perm[i];
+            let c = format!("{ctxs} member={i}");
+            let alone = cache.entry((i, k)).or_insert_with(|| {
+                stats.executions.fetch_add(1, Ordering::Relaxed);
+                execute(instr, &Source::Paced(delays[k].clone()), &[members[i]], Mode::Alone).map(|mut v| v.remove(0))
+            });
+            match alone {
+                Ok(alone) => {
+                    stats.oracle_evals.fetch_add(3, Ordering::Relaxed);
+                    let mut tmp = Vec::new();
+                    rule_isolation("R2-isolation-concurrent", o, alone, &c, &mut tmp);
+                    viols.extend(tmp.into_iter().map(|(s, d)| (format!("{s}/members-paced-differently"), d)));
+                }
+                Err((kind, text)) => viols.push((format!("C20/R1-completeness-order/backtest-failed/{kind}"), format!("{c} alone: {text}"))),
+            }
+        }
+        if viols.is_empty() {
+            return;
+        }
+        first.get_or_insert(viols);
+    }
+    out.extend(first.unwrap_or_default());
 }
 
 /// Heterogeneous pacing: concurrent members that are NOT in lock-step (the `task interleavings` dimension of
@@ -1240,7 +1448,62 @@ fn hetero_pacing(ctx: &Ctx, stats: &Stats, distinct: &Distinct) -> Value {
         ctx.violate(sig, detail, case);
     }
     json!({"max_events": n_h, "units_dataset_x_pacing_pair": units.len(), "batches": batches.load(Ordering::Relaxed),
-        "rule": "N=2 members with different pacing vectors (all ordered pairs from the menu), all ordered strategy pairs; each member == itself alone under its own pacing"})
+        "rule": "N=2 members with different pacing vectors (all ordered pairs from the menu), all ordered strategy pairs; under some one-to-one assignment of the pacing vectors to the members every member == itself alone under its pacing (identity tried first)"})
+}
+
+/// Many concurrent members. The main sweep stops at N = 3; `run_backtests` joins its members with
+/// `futures::future::try_join_all`, which switches from polling every member in turn to a `FuturesOrdered`
+/// (wake-order polling) above 30 members - a different interleaving of the members' tasks. A few datasets and
+/// sources are therefore also run with N in {4, 8, 31, 32, 64} members (strategies assigned cyclically with an
+/// offset, so neighbours differ and every strategy occurs), each member judged by R1/R3 and - for the paced,
+/// tie-free sources - by R2 against the same strategy alone (see `check_batch_timing_free` for the burst source).
+fn many_members(ctx: &Ctx, stats: &Stats, distinct: &Distinct) -> Value {
+    let datasets: Vec<Vec<usize>> = vec![vec![0, 1], vec![1, 1, 0], vec![0, CODE_RECONNECT, 1]];
+    let member_counts: Vec<usize> = ctx.tier.pick(vec![4, 8, 32], vec![4, 5, 8, 16, 30, 31, 32, 64]);
+    let mut units: Vec<(Vec<usize>, Source)> = Vec::new();
+    for instr in &datasets {
+        let n = instr.len();
+        let mut stall_tail = vec![1u64; n + 1];
+        stall_tail[n] = STALL_MS;
+        for source in [Source::InMemory, Source::Paced(vec![1; n + 1]), Source::Paced(vec![250; n + 1]), Source::Paced(vec![30; n + 1]), Source::Paced(stall_tail)] {
+            units.push((instr.clone(), source));
+        }
+    }
+    let batches = AtomicU64::new(0);
+    let viols: Vec<(Viol, Value)> = units
+        .par_iter()
+        .flat_map_iter(|(instr, source)| {
+            let strats = strategies(instr.len());
+            let mut found: Vec<(Viol, Value)> = Vec::new();
+            let mut refs = BTreeMap::new();
+            for s in &strats {
+                let mut out = Vec::new();
+                if let Some(r) = reference(instr, source, *s, stats, distinct, &mut out) {
+                    refs.insert(*s, r);
+                }
+                found.extend(out.into_iter().map(|v| (v, case_json(instr, source, &[*s]))));
+            }
+            for &count in &member_counts {
+                for offset in 0..2usize {
+                    let members: Vec<Strat> = (0..count).map(|i| strats[(i * (offset + 1) + offset) % strats.len()]).collect();
+                    let mut out = Vec::new();
+                    if *source == Source::InMemory {
+                        check_batch_timing_free(instr, source, &members, stats, distinct, &mut out);
+                    } else {
+                        check_batch(instr, source, &members, &refs, stats, distinct, &mut out);
+                    }
+                    batches.fetch_add(1, Ordering::Relaxed);
+                    found.extend(out.into_iter().map(|v| (v, case_json(instr, source, &members))));
+                }
+            }
+            found
+        })
+        .collect();
+    for ((sig, detail), case) in viols {
+        ctx.violate(sig, detail, case);
+    }
+    json!({"member_counts": member_counts, "datasets": datasets, "units_dataset_x_source": units.len(), "batches": batches.load(Ordering::Relaxed),
+        "rule": "N concurrent members (strategies assigned cyclically, two offsets) through run_backtests; R1 and R3 for every member; R2 (each member == the same strategy alone) for the paced sources (tie-free), not for the burst source"})
 }
 
 pub fn run(ctx: &Ctx) -> Outcome {
@@ -1262,8 +1525,10 @@ pub fn run(ctx: &Ctx) -> Outcome {
     let distinct = Distinct::default();
     let samples = Samples::new(6);
     let candidates = Candidates::default();
-    let mut units: Vec<(Vec<usize>, Source)> = Vec::new();
+    // (dataset, source, cap on the number of concurrent members; 0 = the main sweep's own rule)
+    let mut units: Vec<(Vec<usize>, Source, usize)> = Vec::new();
     let mut per_n = Vec::new();
+    let mut shape_units = 0usize;
     for n in 1..=n_max {
         let patterns = product(&[0usize, 1usize], n);
         // The first delay is never 0: the initial account snapshot then reaches the engine before the first
@@ -1275,15 +1540,41 @@ pub fn run(ctx: &Ctx) -> Outcome {
             .map(Source::Paced)
             .collect::<Vec<_>>();
         pacings.push(Source::InMemory);
+        // stalled streams: a 6-hour virtual delay at each position (before event i / before end-of-stream)
+        for pos in 0..=n {
+            let mut p = vec![1u64; n + 1];
+            p[pos] = STALL_MS;
+            pacings.push(Source::Paced(p));
+        }
         per_n.push(json!({"n": n, "instrument_patterns": patterns.len(), "sources": pacings.len(), "strategies": strategies(n).len()}));
         for p in &patterns {
             for s in &pacings {
-                units.push((p.clone(), s.clone()));
+                units.push((p.clone(), s.clone(), 0));
+            }
+        }
+        // Dataset shapes: every dataset of n events over the full code alphabet (equal / decreasing
+        // timestamps, exact duplicates, `Reconnecting` entries) that is not already a plain one, under a
+        // burst source (the real MarketDataInMemory) and two paced ones (responses land after / between the
+        // events), every strategy alone and every ordered pair of strategies.
+        let n_shape = ctx.tier.pick(3usize, 4usize);
+        if n <= n_shape {
+            let shape_sources = [Source::InMemory, Source::Paced(vec![1; n + 1]), Source::Paced(vec![250; n + 1])];
+            for p in product(&CODES_ALL, n).into_iter().filter(|p| p.iter().any(|c| *c > 1)) {
+                // a dataset must hold at least one trade (MarketDataInMemory::new requires it)
+                if p.iter().all(|c| *c == CODE_RECONNECT) {
+                    continue;
+                }
+                // pairs of concurrent members below the largest size, single members at the largest size
+                let cap = if n >= n_shape { 1 } else { 2 };
+                for s in &shape_sources {
+                    units.push((p.clone(), s.clone(), cap));
+                    shape_units += 1;
+                }
             }
         }
     }
 
-    units.par_iter().for_each(|(instr, source)| {
+    units.par_iter().for_each(|(instr, source, cap)| {
         let n = instr.len();
         let strats = strategies(n);
         let mut viols: Vec<(Viol, Case)> = Vec::new();
@@ -1297,7 +1588,7 @@ pub fn run(ctx: &Ctx) -> Outcome {
         }
         // N=3 over every ordered assignment is the dominant cost: at the largest dataset size N=3 is run only
         // for the datasets whose first event is on instrument 0 (the mirror images are covered for N<=2).
-        let max_members = if n == n_max && n >= 3 && instr[0] == 1 { 2 } else { 3 };
+        let max_members = if *cap > 0 { *cap } else if n == n_max && n >= 3 && instr[0] == 1 { 2 } else { 3 };
         for members_n in 1..=max_members {
             let mut assignments = product(&strats, members_n);
             if members_n == 3 && n >= 4 {
@@ -1320,7 +1611,6 @@ pub fn run(ctx: &Ctx) -> Outcome {
             candidates.report(sig, detail, case);
         }
     });
-
     // Serial confirmation of every signature (the sweep is over: nothing else runs in the process now).
     for (sig, (count, mut cands)) in candidates.inner.into_inner().unwrap() {
         cands.sort_by(|a, b| a.0.cmp(&b.0));
@@ -1342,7 +1632,7 @@ pub fn run(ctx: &Ctx) -> Outcome {
 
     // deterministic samples: a few cases spread over the unit list, re-executed serially with their outcome
     for k in 0..6usize {
-        let (instr, source) = &units[(units.len() - 1) * k / 5];
+        let (instr, source, _) = &units[(units.len() - 1) * k / 5];
         let strats = strategies(instr.len());
         let members: Vec<Strat> = (0..(k % 3) + 1).map(|j| strats[(k + 2 * j + 1) % strats.len()]).collect();
         let observed = execute(instr, source, &members, Mode::Batch).ok().map(|v| {
@@ -1356,6 +1646,7 @@ pub fn run(ctx: &Ctx) -> Outcome {
 
     let hetero = hetero_pacing(ctx, &stats, &distinct);
     let long = long_datasets(ctx);
+    let many = many_members(ctx, &stats, &distinct);
     let smoke = mt_smoke(ctx);
 
     let g = |a: &AtomicU64| a.load(Ordering::Relaxed);
@@ -1387,7 +1678,8 @@ pub fn run(ctx: &Ctx) -> Outcome {
             "bounds": {
                 "dataset_sizes": format!("1..={n_max}"),
                 "instrument_patterns": "all 2^n",
-                "pacings": "menu^(n+1) with first delay > 0, plus the real MarketDataInMemory",
+                "pacings": "menu^(n+1) with first delay > 0, plus the real MarketDataInMemory, plus a 6-hour (virtual) stall at each of the n+1 positions",
+                "dataset_shapes": "every dataset of n <= 3 (thorough 4) entries over {trade on 2 instruments stamped later / equal / one hour earlier than the previous trade, exact duplicate of the previous trade, Reconnecting} x {MarketDataInMemory, all delays 1 ms, all delays 250 ms} x every strategy alone (twice) and as a batch of one; below the largest n also every ordered pair of strategies",
                 "strategies": "idle + buy@b/sell@s for all 1<=b<s<=n+1",
                 "members": "N=1,2: every ordered assignment for every dataset; N=3: every ordered assignment (n<=3), non-decreasing triples + reversals (n=4); at n=n_max N=3 only for datasets starting on instrument 0",
             },
@@ -1396,6 +1688,9 @@ pub fn run(ctx: &Ctx) -> Outcome {
             "samples": samples.take(),
             "heterogeneous_pacing_layer": hetero,
             "long_dataset_layer": long,
+            "many_members_layer": many,
+            "dataset_shape_units": shape_units,
+            "stall_ms": STALL_MS,
             "auxiliary_multithread_smoke": smoke,
         }),
         assumptions: vec![
@@ -1404,7 +1699,9 @@ pub fn run(ctx: &Ctx) -> Outcome {
             "one mocked exchange, two spot instruments, market orders of quantity 1, balances never exhausted, no disconnects and no fatal engine errors in the explored runs".into(),
             "N=3 at the largest dataset size (n=3 quick, n=4 thorough) only for datasets starting on instrument 0; all smaller sizes: every dataset x N<=3; at n=4 the N=3 assignments are the non-decreasing strategy triples and their reversals (all ordered triples for n<=3, all ordered pairs for every n)".into(),
             "the first market event is delivered a positive virtual delay after system start, i.e. after the initial account snapshot".into(),
-            "timestamps are excluded from compared outcomes (HistoricalClock adds wall-clock deltas); dataset timestamps are one hour apart so wall-clock jitter cannot reorder exchange timestamps".into(),
+            "timestamps are excluded from compared outcomes (HistoricalClock adds wall-clock deltas) except for the whole hour of a fill's exchange time; dataset timestamps are whole hours (main sweep: strictly increasing; dataset-shape layer: also equal and decreasing), so wall-clock jitter cannot move an exchange timestamp into another hour".into(),
+            "a `Reconnecting` entry of the dataset is observed through the engine's call of the strategy's on_disconnect hook; the mock account stream never reconnects in the explored runs, so every such call stems from a market entry".into(),
+            "stalled sources are modelled by one 6-hour virtual delay; a shutdown that gives up on the stream later than that is not distinguished from one that waits for ever".into(),
         ],
     }
 }
@@ -1425,7 +1722,11 @@ pub fn replay(ctx: &Ctx, case: &Value) {
             check_mt_smoke(&case.instr, &case.source, &case.members, case.mt_workers, &mut out);
         }
     } else {
-        out = check_case_serial(&case, true);
+        out = check_case_serial(&case, case.instr.len() <= 16);
+        if case.instr.len() > 16 {
+            // found by the long-dataset layer, whose signatures carry its name
+            out = out.into_iter().map(|(s, d)| (format!("{s}/long-dataset"), d.chars().take(300).collect())).collect();
+        }
         if out.is_empty() && case.needs_parallel_context {
             println!("serial re-run clean; re-running under concurrent load (4 checker threads x 40 repetitions, 4 noisy-neighbour threads)");
             out = check_case_under_load(&case);
